@@ -332,6 +332,37 @@ theorem burnt_nonneg (t : TxIn) (b : Base) (h : b.NonNeg) (hafford : (t.amt : In
   · exact Int.le_refl _
 
 
+/-! ## Blocks: one VM object for all transactions of a block (`blockchain.go:1365 processTxs`, `:2158 filterTxs`) -/
+
+/-- one embedded contract transaction of a block: the transaction, what the contract did, its verdict -/
+structure ERun where
+  t : TxIn
+  trace : List ECall
+  verdict : Bool
+
+/-- the transactions of a block in order; each run gets a fresh environment over the ledger the previous one left
+(`VmImpl.Run` resets the shared `EnvImp` before every run: `vm.go:186-187 gasCounter.Reset; env.Reset()`) -/
+def applyBlockE (b : Base) : List ERun → Base
+  | [] => b
+  | x :: rest => applyBlockE (applyE x.t b x.trace x.verdict).1 rest
+
+/-- **every run starts from empty buffers**: before its first call a run shows exactly the ledger it was started on —
+no balance, stake, contract or stored value buffered by an earlier (failed) run of the same VM object -/
+theorem run_starts_empty (b : Base) (l : Int) :
+    ({ base := b, limit := l } : EEnv).getBal = b.bal ∧ ({ base := b, limit := l } : EEnv).storeView = b.store ∧
+    ({ base := b, limit := l } : EEnv).conAfter = b.con ∧ ({ base := b, limit := l } : EEnv).events = 0 ∧
+    ({ base := b, limit := l } : EEnv).gas = 0 :=
+  ⟨rfl, rfl, rfl, rfl, rfl⟩
+
+/-- **failed_no_trace inside a block**: whatever a failed transaction wrote into the environment's buffers, the rest of the
+block runs exactly as on the prior ledger with that transaction's fee + tips charged and nonce / epoch set — nothing of
+its trace reaches a later transaction of the same block -/
+theorem block_failed_no_trace (b : Base) (x : ERun) (rest : List ERun)
+    (hfail : (applyE x.t b x.trace x.verdict).2.success = false) :
+    applyBlockE b (x :: rest) = applyBlockE (failedPost x.t b (applyE x.t b x.trace x.verdict).2.gasUsed) rest := by
+  show applyBlockE (applyE x.t b x.trace x.verdict).1 rest = _
+  rw [failed_no_trace x.t b x.trace x.verdict hfail]
+
 open WEnv
 
 /-! ## Wasm contracts -/
